@@ -107,6 +107,21 @@ Theorem C11_ioport_reachable : forall fuel ops io, IOInv io -> IOInv (fst (io_ru
 Proof. exact io_run_inv. Qed.
 Print Assumptions C11_ioport_reachable.
 
+(* close() called from ANY number of threads under ANY schedule (model ConcClose.v: lock, closed flag, the device's _close, one access per
+   step): the device is released at most once, and exactly once (with the port closed) as soon as one of the calls has returned; without
+   the lock around the test and the release, two threads release it twice *)
+Require Import Mido.Model.ConcClose Mido.Proofs.ConcCloseProofs.
+Theorem C11_close_threads_at_most_once : forall sched, (k_releases (fst (krun true sched kinit)) <= 1)%nat.
+Proof. exact close_threads_at_most_once. Qed.
+Print Assumptions C11_close_threads_at_most_once.
+Theorem C11_close_threads_exactly_once : forall sched t, snd (krun true sched kinit) t = KDone ->
+  k_closed (fst (krun true sched kinit)) = true /\ k_releases (fst (krun true sched kinit)) = 1%nat.
+Proof. exact close_threads_exactly_once. Qed.
+Print Assumptions C11_close_threads_exactly_once.
+Theorem C11_close_unlocked_refuted : k_releases (fst (krun false [0; 0; 1; 1; 0; 1]%nat kinit)) = 2%nat.
+Proof. exact close_unlocked_refuted. Qed.
+Print Assumptions C11_close_unlocked_refuted.
+
 Example C11_nonvacuous : snd (port_run 5 (new_port false false [APush [1; 2]; AClose] []) [PIterate 1000; PPoll; PClose])
   = [OList_ [1; 2]; OMsg_ None; ONone_].
 Proof. vm_compute. reflexivity. Qed.
